@@ -137,11 +137,15 @@ def jobs(tier):
                             weight=n * 3))
         out.append(dict(func="upload", params=dict(n=n, crc=1, sized=1, how="buffered", fault=["crc"]), weight=n))
         out.append(dict(func="upload", params=dict(n=n, crc=1, sized=1, how="buffered", fault=["end"]), weight=n))
+        # the same faults when the server does not indicate the size
+        out.append(dict(func="upload", params=dict(n=n, crc=1, sized=0, how="buffered", fault=["crc"]), weight=n))
+        out.append(dict(func="upload", params=dict(n=n, crc=1, sized=0, how="rawall", fault=["lose", 1]), weight=n))
     for n in ((7, 14) if q else (7, 14, 21)):
         nseg = -(-n // 7)
         for k in range(nseg):
-            out.append(dict(func="upload", params=dict(n=n, crc=1, sized=1, how="buffered", fault=["flip", k]),
-                            weight=n * 50, limits=dict(query_timeout_ms=300000, fast_ms=500)))
+            for sized in (1, 0):
+                out.append(dict(func="upload", params=dict(n=n, crc=1, sized=sized, how="buffered", fault=["flip", k]),
+                                weight=n * 50, limits=dict(query_timeout_ms=300000, fast_ms=500)))
     return out
 
 
